@@ -23,6 +23,8 @@ def ev(e, env, atoms=None):
         raise Unsupported('name ' + e.id)
     if isinstance(e, ast.Tuple):
         return tuple(ev(x, env, atoms) for x in e.elts)
+    if isinstance(e, ast.List):
+        return [ev(x, env, atoms) for x in e.elts]
     if isinstance(e, ast.UnaryOp):
         v = ev(e.operand, env, atoms)
         if isinstance(e.op, ast.Not):
